@@ -202,7 +202,14 @@ def run_case(spec):
                 viol.append({"key": "C08/nameplate-still-claimed", "msg": "%s closed (%s) but the server still shows nameplate %s claimed by it; machines at close(): %s" % (
                     app.name, verdict, name, states_at_close.get(app.name)), "witness": wit()})
         mb_known = app.w._boss._M._mailbox
-        refused = any(sd == side and orig == "close" for (_, sd, _, orig) in world.server_errors)
+        # only a refusal the client cannot do anything about (the mailbox was crowded by a third side)
+        # excuses a mailbox that stays open; any other error reply to `close` is the client's doing
+        refused = any(sd == side and orig == "close" and err == "crowded" for (_, sd, err, orig) in world.server_errors)
+        for (_, sd, err, orig) in world.server_errors:
+            if sd == side and orig in ("close", "release") and err != "crowded":
+                viol.append({"key": "C08/server-rejected-%s/%s" % (orig, err.replace(" ", "-")[:40]),
+                             "msg": "%s: the server answered our %s with error %r" % (app.name, orig, err), "witness": wit()})
+                break
         if mb_known is not None and refused:
             counters["server_refused_close"] = counters.get("server_refused_close", 0) + 1
         if mb_known is not None and not refused:
